@@ -14,6 +14,7 @@ import GMGDriver.FootDrv
 import GMGDriver.OwnerDrv
 import GMGDriver.SmCodeDrv
 import GMGDriver.CacheDrv
+import GMGDriver.SetupDrv
 
 def main (args : List String) : IO UInt32 := do
   match args with
@@ -35,6 +36,7 @@ def main (args : List String) : IO UInt32 := do
   | ["foot"] => FootDrv.main
   | ["smcode"] => SmCodeDrv.main
   | ["cache"] => CacheDrv.main
+  | ["setup"] => SetupDrv.main
   | ["owner", a, b] => OwnerDrv.main a.toNat! b.toNat!
   | ["sched", a, b] => SchedDrv.main a.toNat! b.toNat!
   | _ => do
